@@ -163,6 +163,14 @@ func readOHP(b []byte) refOHP {
 	return o
 }
 
+func mustHop2Off(b []byte) int {
+	h, err := rfix.ParseHdr(b)
+	if err != nil || len(h.HopOff) < 2 {
+		return 0
+	}
+	return h.HopOff[1]
+}
+
 func (o *refOHP) firstMACValid(key []byte) bool {
 	m := rfix.HopMAC(key, o.segID, o.ts, o.exp, o.consIn, o.consEg)
 	return string(m[:6]) == string(o.mac[:])
@@ -547,6 +555,18 @@ func c12Incoming(r *mon.Run, p *c12Pair, at string, star *rfix.Star, nbr map[uin
 	want := rfix.HopMAC(star.Cfg.HopKey, acc16, ref.ts, out.exp2, out.consIn2, out.consEg2)
 	if string(want[:6]) != string(out.mac2[:]) {
 		r.Violation("C12:second-hop-invalid", fmt.Sprintf("completed second hop field (in=%d eg=%d exp=%d mac=%x) does not verify under the local key with accumulator %#04x", out.consIn2, out.consEg2, out.exp2, out.mac2, acc16), w(""))
+		return
+	}
+	// The completed hop is the last hop of a path that ends in this AS: no egress
+	// interface, no pending router alerts, whatever the neighbour had put into
+	// the slot. Anything else would be a MACed hop field for a different use
+	// (a transit hop ingress->X) or would divert the reversed path to the slow path.
+	if out.consEg2 != 0 {
+		r.Violation("C12:second-hop-not-terminal", fmt.Sprintf("completed second hop carries egress interface %d (the router issued a MAC for a transit hop %d->%d instead of the one-hop completion)", out.consEg2, out.consIn2, out.consEg2), w(""))
+		return
+	}
+	if fl := res.Out[mustHop2Off(res.Out)] & 3; fl != 0 {
+		r.Violation("C12:second-hop-alert-flags", fmt.Sprintf("completed second hop carries router-alert flags %#x: the reversed one-hop path is diverted to the slow path", fl), w(""))
 		return
 	}
 	if out.consIn2 != inIf {
